@@ -329,6 +329,9 @@ def ite(c, a, b):
         return b
     if a == b:
         return a
+    if c[0] == 'not':
+        # boolean negation is exact (also for NaN-false comparisons): ite(!c, a, b) = ite(c, b, a)
+        return ite(c[1], b, a)
     # under condition c an inner test of the same condition is decided
     if a[0] == 'ite' and a[1] is c:
         a = a[2]
